@@ -293,4 +293,12 @@ def run(ctx):
     ctx.guard("sc", "scalar32::reduce", lambda: sc32.check_scalar32(ctx, P2, "reduce"))
     ctx.guard("sc", "scalar32::muladd", lambda: sc32.check_scalar32(ctx, P2, "muladd"))
     ctx.guard("total", "x25519/K2", lambda: C12.check_total(ctx, P2, ["curve25519::curve25519", "curve25519::curve25519_base"]))
+    # the buffering loops of the hash contexts slice their input by computed bounds: every slice expression over the tracked
+    # windows is an index-bounds obligation of the shape analysis, the block-run drivers and the stream ciphers are decided
+    # for their shapes (shared rule instances with C02 / C04 / C05)
+    from . import C02 as _C02, streamshape, C04 as _C04
+    ctx.guard("absorb", "all", lambda: _C02.check_absorb(ctx, P))
+    ctx.guard("block-run", "all", lambda: _C02.check_block_runs(ctx, P))
+    ctx.guard("shape-eval", "process_mut", lambda: streamshape.check_process_mut(ctx, P, [c[0] for c in _C04.CIPHERS]))
+    ctx.guard("shape-eval", "Poly1305::input", lambda: polybounds.check_input_shapes(ctx, P))
     ctx.not_decided += ["absence of overflow / bounds panics outside Poly1305, the field backends and scalar32 (interval obligations are not discharged crate-wide)", "extents of the unsafe raw-pointer accesses beyond their dominating guards", "value equality between debug and release builds beyond the counter / wrap rules"]
